@@ -55,6 +55,9 @@ THEOREMS = [P + n for n in (
     "distinct_order_counterexample",
     "duplicate_output_names_counterexample",
     "alias_shadow_counterexample",
+    "generated_widen_form_ok",
+    "aggregate_views_consistent",
+    "rebind_breaks_views_witness",
 )]
 
 CMP_PY = {ast.Eq: "eq", ast.NotEq: "ne", ast.Lt: "lt", ast.LtE: "le", ast.Gt: "gt", ast.GtE: "ge"}
@@ -200,6 +203,30 @@ def _executor_facts(problems):
             facts["agg"] = (0, 1, 2, 2, 1)
         else:
             facts["agg"] = (start0, end0, emit, startoff, last)
+    # ---- aggregate(): how the operand columns are attached to the rows: subscript store into context.table.rows (in place)
+    #      vs rebinding the attribute context.table.rows
+    def is_ctx_rows(n):
+        return (isinstance(n, ast.Attribute) and n.attr == "rows" and isinstance(n.value, ast.Attribute) and n.value.attr == "table"
+                and isinstance(n.value.value, ast.Name) and n.value.value.id == "context")
+
+    form = None
+    if agg is not None:
+        stores = rebinds = 0
+        for n in ast.walk(agg):
+            if isinstance(n, (ast.Assign, ast.AugAssign)):
+                for tg in (n.targets if isinstance(n, ast.Assign) else [n.target]):
+                    if isinstance(tg, ast.Subscript) and is_ctx_rows(tg.value):
+                        stores += 1
+                    if is_ctx_rows(tg):
+                        rebinds += 1
+        if stores == 1 and rebinds == 0:
+            form = "subscriptStore"
+        elif stores == 0 and rebinds == 1:
+            form = "attributeRebind"
+    if form is None:
+        problems.append("aggregate(): cannot tell how operand columns are attached to context.table.rows")
+        form = "subscriptStore"
+    facts["widen"] = form
     # ---- _append_unmatched_join_rows: `if side in (…)` twice
     fn = fns.get("_append_unmatched_join_rows")
     sides = []
@@ -295,6 +322,7 @@ def translate(chk: Check) -> str:
     for p in problems:
         chk.broken.append({"kind": "translator", "what": "C11 translator: structure changed: " + p})
     a = facts["agg"]
+    chk.cov["aggregate_widen_form"] = facts["widen"]
     chk.cov["translated"] = {"cmp": cmp_ops, "arith": arith_ops, "empty_null": empty_null, "agg_consts": list(a),
                              "sides": [facts["left"], facts["right"]], "consts": consts}
     lb = lambda b: "true" if b else "false"
@@ -313,6 +341,7 @@ def translate(chk: Check) -> str:
         "  arithOps := [" + ", ".join(f'("{k}", .{o})' for k, o in arith_ops) + "]\n"
         "def envIdentity : List (String × String) := ["
         + ", ".join(f'("{k}", "{v}")' for k, v in sorted(ident.items())) + "]\n"
+        f"def widenForm : WidenForm := .{facts['widen']}\n"
         "end SqlglotModel.Generated.C11\n"
     )
 
@@ -510,6 +539,34 @@ def real_eval(e, row):
     return ctx.eval(code)
 
 
+COLS_Y = ("d", "e", "f")
+
+
+def real_join_agg(side, ks, kj, operands, keys, aggs, L, R):
+    """join x(a,b,c) with y(d,e,f) (disjoint names), then aggregate() with computed operands over the join context"""
+    from sqlglot import exp, planner
+    from sqlglot.executor.table import Table
+
+    ex = executor()
+    names = [("x", c) for c in COLS] + [("y", c) for c in COLS_Y]
+    jst = planner.Join()
+    jst.name = "x"
+    jst.source_name = "x"
+    jst.joins = {"y": {"side": side, "condition": None,
+                       "source_key": [exp.column(COLS[i], "x") for i in ks] or None,
+                       "join_key": [exp.column(COLS_Y[i], "y") for i in kj] or None}}
+    ctx = ex.join(jst, ex.context({"x": Table(COLS, [tuple(r) for r in L]), "y": Table(COLS_Y, [tuple(r) for r in R])}))
+    st = planner.Aggregate()
+    st.name = "x"
+    st.source = "x"
+    st.group = {f"_g{i}": exp.column(names[k][1], names[k][0]) for i, k in enumerate(keys)}
+    st.operands = tuple(exp.alias_(to_sqlglot(e, names), f"_a_{i}", quoted=True) for i, e in enumerate(operands))
+    st.aggregations = [exp.alias_(getattr(exp, AGG_CLS[f])(this=exp.column(f"_a_{c - 6}", quoted=True)), f"v{i}")
+                       for i, (f, c) in enumerate(aggs)]
+    out = ex.aggregate(st, ctx)
+    return rows_json(out.tables["x"].rows)
+
+
 def real_scan(static, cond, projs, limit, offset, rows):
     from sqlglot import exp, planner
     from sqlglot.executor.python import PythonExecutor
@@ -675,6 +732,21 @@ def build_cases(chk: Check):
         quant = rng.choice(["ANY", "ALL"])
         cases.append(("subq_cmp", {"op": "subq_cmp", "fn": fn, "quantifier": quant, "v": v, "xs": xs},
                       guarded(real_subq_cmp, fn, quant, v, xs), False, None))
+    # 12. join() then aggregate() with COMPUTED operands; group keys from either table (the joined one mostly)
+    for _ in range(chk.pick(250, 2500)):
+        L, R = rand_rows(rng, 5, p_empty=0.05), rand_rows(rng, 5, p_empty=0.05)
+        side = rng.choice(["", "LEFT", "RIGHT", "FULL"])
+        if rng.random() < 0.8:
+            k = rng.choice([0, 1])
+            ks, kj = [k], [rng.choice([0, 1])]
+        else:
+            ks, kj = [], []
+        operands = [rand_expr(rng, 6, depth=rng.choice([0, 1])) for _ in range(rng.randint(1, 2))]
+        keys = rng.choice([[3], [4], [5], [4, 5], [0], [1, 4], [5, 3]])
+        aggs = [[rng.choice(["SUM", "COUNT", "MIN", "MAX"]), 6 + rng.randrange(len(operands))] for _ in range(rng.randint(1, 2))]
+        req = {"op": "join_agg", "side": side, "width": 6, "ks": ks, "kj": kj, "operands": operands, "keys": keys, "aggs": aggs,
+               "L": rows_json(L), "R": rows_json(R)}
+        cases.append(("join_agg", req, guarded(real_join_agg, side, ks, kj, operands, keys, aggs, L, R), False, None))
     return cases
 
 
@@ -710,16 +782,22 @@ def correspond(chk: Check) -> list:
 
 
 # ------------------------------------------------------------------------------------------ engines (assumption check + oracle)
+def ucols(t, uniq):
+    """column names of table t: a, b, c  -- or, in the unique-names universe, <t>_a, <t>_b, <t>_c"""
+    return tuple(f"{t}_{c}" for c in COLS) if uniq else COLS
+
+
 class Engines:
-    def __init__(self):
+    def __init__(self, uniq=False):
         import sqlite3
         import duckdb
 
         self.lite = sqlite3.connect(":memory:")
         self.duck = duckdb.connect(":memory:")
         for t in ("x", "y", "z"):
-            self.lite.execute(f"CREATE TABLE {t} (a INTEGER, b INTEGER, c TEXT)")
-            self.duck.execute(f"CREATE TABLE {t} (a BIGINT, b BIGINT, c VARCHAR)")
+            a, b, c = ucols(t, uniq)
+            self.lite.execute(f"CREATE TABLE {t} ({a} INTEGER, {b} INTEGER, {c} TEXT)")
+            self.duck.execute(f"CREATE TABLE {t} ({a} BIGINT, {b} BIGINT, {c} VARCHAR)")
         self.loaded = None
 
     def load(self, db):
@@ -759,24 +837,23 @@ class Engines:
         return out
 
 
-_ENG = None
+_ENG = {}
 
 
-def engines() -> Engines:
-    global _ENG
-    if _ENG is None:
-        _ENG = Engines()
-    return _ENG
+def engines(uniq=False) -> Engines:
+    if uniq not in _ENG:
+        _ENG[uniq] = Engines(uniq)
+    return _ENG[uniq]
 
 
-def run_sqlglot(db, sql):
+def run_sqlglot(db, sql, uniq=False):
     """-> (cols, rows) | ('execute_error'|'sqlglot_error'|'leak', text)"""
     from sqlglot.errors import ExecuteError, SqlglotError
     from sqlglot.executor import execute
     from sqlglot.executor.table import Table
 
-    schema = {t: {"a": "INT", "b": "INT", "c": "TEXT"} for t in ("x", "y", "z")}
-    tables = {t: Table(columns=COLS, rows=[tuple(r) for r in db.get(t, [])]) for t in ("x", "y", "z")}
+    schema = {t: dict(zip(ucols(t, uniq), ("INT", "INT", "TEXT"))) for t in ("x", "y", "z")}
+    tables = {t: Table(columns=ucols(t, uniq), rows=[tuple(r) for r in db.get(t, [])]) for t in ("x", "y", "z")}
     try:
         res = execute(sql, schema=schema, tables=tables)
         return list(res.columns), Engines._norm(res.rows)
@@ -788,9 +865,10 @@ def run_sqlglot(db, sql):
         return "leak", type(e).__name__ + ": " + str(e)[:120]
 
 
-def compare_sql(db, sql, ordered, which=("sqlite", "duckdb")):
-    """The property's statement on one (db, query). -> (status, detail)"""
-    eng = engines().run(db, sql, which)
+def compare_sql(db, sql, ordered, which=("sqlite", "duckdb"), uniq=False):
+    """The property's statement on one (db, query). -> (status, detail).  uniq: the universe in which every table
+    has its own column names (x_a, y_a, …), where the executor's known column-NAME-collision defects cannot fire."""
+    eng = engines(uniq).run(db, sql, which)
     answers = {k: v for k, v in eng.items() if v[0] != "error"}
     if not answers:
         return "engine_error", str(eng)
@@ -804,7 +882,7 @@ def compare_sql(db, sql, ordered, which=("sqlite", "duckdb")):
     if len(vals) == 2 and canon(vals[0]) != canon(vals[1]):
         return "engines_disagree", str(normed)
     want = vals[0]
-    got = run_sqlglot(db, sql)
+    got = run_sqlglot(db, sql, uniq)
     if got[0] in ("execute_error", "sqlglot_error", "leak"):
         return got[0], got[1]
     g = norm(got)
@@ -1282,6 +1360,13 @@ def root_causes(ir, res=None) -> list:
 
         if any(mixes(p["e"]) for p in q["proj"]) or any(k["e"][0] != "out" and mixes(k["e"]) for k in (q.get("order") or [])):
             tags.add("rc:projection-mixes-key-and-aggregate")
+        # key-only HAVING containing a literal whose text is the NAME of a GROUP BY column (planner rebinds it)
+        if q["having"] is not None and q["group"] and not O._has_agg(q["having"]):
+            gnames = {k[2] for k in q["group"] if k[0] == "col"}
+            lits = []
+            O._walk_expr(q["having"], lambda e: lits.append(e[1]) if e[0] == "str" else None, lambda _q: None)
+            if gnames & set(lits):
+                tags.add("rc:having-literal-named-like-group-key")
         # HAVING that mixes a bare group-key column with aggregates (planner turns the whole HAVING into one aggregation)
         if q["having"] is not None:
             bare = []
@@ -1321,10 +1406,72 @@ def root_causes(ir, res=None) -> list:
     return sorted(tags)
 
 
-def violation_key(ir, res=None) -> str:
+NAME_COLLISION_TAGS = {"rc:agg-operand-over-join", "rc:order-by-column-over-join"}
+
+
+def uniq_ir(ir):
+    """the same query over tables whose columns are named <table>_<col>: every column reference is renamed, every
+    output keeps its name through an explicit alias.  -> IR, or None when the probe would be inconclusive (an alias
+    mapping to two tables, or a self-join)"""
+    import copy
     from vf.props import c11_oracle as O
 
-    return ",".join(root_causes(ir, res)) + "|" + O.skeleton(ir)
+    ir = copy.deepcopy(ir)
+    amap = {}
+    ok = [True]
+
+    def fq(q):
+        if q["k"] != "select":
+            return
+        srcs = [q["from"]] + q["joins"]
+        if len({src["t"] for src in srcs}) != len(srcs):
+            ok[0] = False  # a self-join still shares column names in the renamed universe: the probe says nothing
+        for src in srcs:
+            if amap.setdefault(src["as"], src["t"]) != src["t"]:
+                ok[0] = False
+        for p_ in q["proj"]:
+            if p_["as"] is None and p_["e"][0] == "col":
+                p_["as"] = p_["e"][2]
+
+    O._walk_query(ir, lambda e: None, fq)
+    if not ok[0]:
+        return None
+
+    def fe(e):
+        if e[0] == "col" and e[1] in amap and not e[2].startswith(amap[e[1]] + "_"):
+            e[2] = amap[e[1]] + "_" + e[2]
+
+    O._walk_query(ir, fe, lambda q: None)
+    return ir
+
+
+def persists_with_unique_names(db, ir) -> bool:
+    """does the violation survive when no two tables share a column name?  (then it is NOT one of the executor's
+    known column-name-collision defects)"""
+    from vf.props import c11_oracle as O
+
+    u = uniq_ir(ir)
+    if u is None:
+        return False
+    try:
+        sql = O.render(u)
+    except Exception:  # noqa
+        return False
+    which = ("duckdb",) if O._needs_duckdb_only(ir) else ("sqlite", "duckdb")
+    for _ in range(3):
+        if compare_sql(db, sql, O.is_ordered(ir), which, uniq=True)[0] == "violation":
+            return True
+    return False
+
+
+def violation_key(ir, res=None, db=None) -> str:
+    from vf.props import c11_oracle as O
+
+    tags = root_causes(ir, res)
+    if db is not None and NAME_COLLISION_TAGS & set(tags) and persists_with_unique_names(db, ir):
+        # wrong answer although no column name is shared: a different defect than the recorded name collisions
+        tags = [t for t in tags if t not in NAME_COLLISION_TAGS] + ["uniq-names-still-wrong"]
+    return ",".join(tags) + "|" + O.skeleton(ir)
 
 
 def gen_interaction(rng):
@@ -1412,6 +1559,64 @@ def gen_alias_shadow(rng):
     return db, q
 
 
+def gen_join_agg(rng):
+    """Targeted family, in the unique-column-names universe (so the recorded name-collision defects stay out of the
+    way): GROUP BY over a join of 2-3 tables with COMPUTED aggregate operands (SUM(x_b + 1), MAX(x_b - y_a), COUNT(*)),
+    group keys taken from joined (non-FROM) tables, >= 3 groups, join output not sorted by the key.
+    -> (db, sql, ordered)"""
+    tabs = rng.sample(["x", "y", "z"], rng.choice([2, 2, 3]))
+    col = lambda t, c: f"{t}.{t}_{c}"
+    sql_from = tabs[0]
+    for i, t in enumerate(tabs[1:], 1):
+        prev = rng.choice(tabs[:i])
+        side = rng.choice(["INNER", "INNER", "LEFT", "LEFT", "RIGHT", "FULL"])
+        on = f"{col(prev, 'a')} = {col(t, 'a')}"
+        if rng.random() < 0.2:
+            on += f" AND {col(t, 'b')} >= {rng.choice([0, 1, 10])}"
+        sql_from += f" {side} JOIN {t} ON {on}"
+    key_pool = [col(t, c) for t in tabs[1:] for c in ("b", "c", "a")]
+    if rng.random() < 0.2:
+        key_pool += [col(tabs[0], c) for c in ("b", "c")]
+    keys = rng.sample(key_pool, rng.choice([1, 1, 2]))
+    ints = [col(t, c) for t in tabs for c in ("a", "b")]
+    aggs = []
+    for _ in range(rng.randint(1, 2)):
+        u = rng.random()
+        if u < 0.15:
+            aggs.append("COUNT(*)")
+        elif u < 0.3:
+            aggs.append(f"{rng.choice(['SUM', 'MIN', 'MAX', 'COUNT'])}({rng.choice(ints)})")
+        else:
+            a, b = rng.choice(ints), rng.choice(ints)
+            operand = rng.choice([f"{a} + 1", f"{a} - {b}", f"{a} * 2", f"{a} + {b}", f"COALESCE({a}, 0) + 1"])
+            aggs.append(f"{rng.choice(['SUM', 'SUM', 'MIN', 'MAX'])}({operand})")
+    outs = [f"{k} AS k{i}" for i, k in enumerate(keys)] + [f"{a} AS v{i}" for i, a in enumerate(aggs)]
+    names = [f"k{i}" for i in range(len(keys))] + [f"v{i}" for i in range(len(aggs))]
+    sql = f"SELECT {', '.join(outs)} FROM {sql_from}"
+    if rng.random() < 0.2:
+        sql += f" WHERE {rng.choice(ints)} IS NOT NULL"
+    sql += " GROUP BY " + ", ".join(keys)
+    if rng.random() < 0.2:
+        sql += f" HAVING {rng.choice(['SUM', 'MAX', 'COUNT'])}({rng.choice(ints)}) >= {rng.choice([0, 1, 2])}"
+    ordered = rng.random() < 0.4
+    if ordered:
+        sql += " ORDER BY " + ", ".join(f"{n} {rng.choice(['ASC', 'DESC'])} NULLS {rng.choice(['FIRST', 'LAST'])}" for n in names)
+        if rng.random() < 0.5:
+            sql += f" LIMIT {rng.randint(1, 4)}"
+    db = {t: [] for t in ("x", "y", "z")}
+    ids = [1, 2, 3, 4, 5]
+    for t in tabs:
+        rows = []
+        for _ in range(rng.randint(3, 6)):
+            a = rng.choice(ids) if rng.random() < 0.92 else None
+            b = rng.choice([10, 20, 30, 40, 11]) if rng.random() < 0.9 else None
+            c = rng.choice(["p", "q", "r", "s"]) if rng.random() < 0.9 else None
+            rows.append((a, b, c))
+        rng.shuffle(rows)
+        db[t] = rows
+    return db, sql, ordered
+
+
 def search(chk: Check, hints: list, budget_s: float) -> None:
     from vf.props import c11_oracle as O
 
@@ -1474,6 +1679,20 @@ def search(chk: Check, hints: list, budget_s: float) -> None:
     # 2. corpus + random queries of the fragment
     tried = 0
     while time.time() - t0 < budget_s and len(chk.violations) < 3:
+        if rng.random() < 0.12:
+            db, sql, ordered = gen_join_agg(rng)
+            tried += 1
+            chk.count("family:join-aggregate-unique-names")
+            st, detail = compare_sql(db, sql, ordered, uniq=True)
+            bump("uniq:" + st, {"sql": sql, "detail": detail[:200]} if st != "agree" else None)
+            chk.case(("uniq", sql, db), nontrivial=True, sample={"sql": sql, "db": db, "status": st} if tried % 97 == 1 else None)
+            if st == "violation":
+                db2 = shrink_rows(db, lambda d: compare_sql(d, sql, ordered, uniq=True)[0] == "violation")
+                detail = compare_sql(db2, sql, ordered, uniq=True)[1]
+                chk.report_violation("uniq-sql:" + sql_skeleton(sql), f"{sql} over {db2} (columns named <table>_<col>): {detail}",
+                                     {"kind": "sql", "uniq": True, "db": {k: rows_json(v) for k, v in db2.items()}, "sql": sql,
+                                      "ordered": ordered, "which": ["sqlite", "duckdb"]})
+            continue
         fam = None
         u = rng.random()
         if u < 0.15:
@@ -1505,7 +1724,7 @@ def search(chk: Check, hints: list, budget_s: float) -> None:
             res2 = O.run_case(db2, ir2, repeat=4)
             if res2["status"] != "violation":  # nondeterministic defect that did not show again: keep the unshrunk case
                 db2, ir2, res2 = db, ir, res
-            chk.report_violation(violation_key(ir2, res2), f"{res2['sql']} over {db2}: {res2.get('detail', '')} differ: execute() -> "
+            chk.report_violation(violation_key(ir2, res2, db2), f"{res2['sql']} over {db2}: {res2.get('detail', '')} differ: execute() -> "
                                  f"{res2.get('got')}; engines -> {res2.get('want')}",
                                  {"kind": "ir", "db": db2, "ir": ir2, "sql": res2["sql"]})
     chk.search_info = {"ran": True, "budget_s": budget_s, "queries": tried, "hints": len(hints), "statuses": stats,
@@ -1560,7 +1779,8 @@ def replay(path: str) -> int:
         print("replay:", f"VIOLATES: {r['sql']} returned {got[1]}; expected {want_n} rows" if bad else "holds")
         return 1 if bad else 0
     if r.get("kind") == "sql":
-        st, detail = compare_sql({k: [tuple(x) for x in v] for k, v in r["db"].items()}, r["sql"], r["ordered"], tuple(r.get("which", ("sqlite", "duckdb"))))
+        st, detail = compare_sql({k: [tuple(x) for x in v] for k, v in r["db"].items()}, r["sql"], r["ordered"],
+                                 tuple(r.get("which", ("sqlite", "duckdb"))), uniq=bool(r.get("uniq")))
     else:
         from vf.props import c11_oracle as O
 
